@@ -172,6 +172,7 @@ func main() {
 				fmt.Fprintln(os.Stderr, "anycheck:", err)
 				return 2
 			}
+			c.Deep = *tier == "thorough" && i == 0 // the larger folding domains once, on the primary configuration
 			cfgNames = append(cfgNames, cfg.String())
 			rep.Count("functions_in_package", 0)
 			if i == 0 {
